@@ -31,9 +31,11 @@ type coroutine struct {
 	wake  chan struct{}
 	done  bool
 	ready func() bool
-	name  string
-	cur   *frame
-	depth int
+	// yielding: inside yield(), waiting for the other coroutines to block or finish
+	yielding bool
+	name     string
+	cur      *frame
+	depth    int
 }
 
 type scheduler struct {
@@ -194,27 +196,28 @@ func (m *Machine) block(ready func() bool, what string) {
 func (m *Machine) yield() {
 	s := m.sched
 	me := s.cur
-	for rounds := 0; rounds < 100000; rounds++ {
-		others := false
+	// A coroutine inside yield waits until no OTHER coroutine is runnable; coroutines that are
+	// themselves waiting in yield do not count (two yielders would otherwise wait for each other),
+	// except on the first evaluation, which hands control to any runnable coroutine at least once.
+	me.yielding = true
+	first := true
+	m.block(func() bool {
 		for _, co := range s.cos {
-			if co != me && !co.done && (co.ready == nil || co.ready()) {
-				others = true
-				break
+			if co == me || co.done {
+				continue
 			}
-		}
-		if !others {
-			return
-		}
-		first := true
-		m.block(func() bool {
-			if first {
+			if co.yielding && !first {
+				continue
+			}
+			if co.ready == nil || co.ready() {
 				first = false
 				return false
 			}
-			return true
-		}, "yield")
-	}
-	m.path.end("bound: yield did not reach quiescence")
+		}
+		first = false
+		return true
+	}, "yield")
+	me.yielding = false
 }
 
 // drainAborted makes every remaining coroutine unwind.
